@@ -91,7 +91,7 @@ MISSINGS = [("dash", "-"), ("empty", ""), ("NA", "NA"), ("NaN", "NaN"), ("dash2"
 NAMES = [("plain", "c0"), ("unicode", "größe_Δ"), ("underscore", "_c0"), ("keyword", "class"), ("yamlbool", "no"), ("astral", "\U0001d700x")]
 UNITS = [("absent", ABSENT), ("percent", "percent"), ("dots", "..."), ("pct", "%"), ("astral", "\U0001d707m")]
 VIAS = ["dict", "terse"]
-CONTAINERS = ["list", "tuple", "ndarray"]
+CONTAINERS = ["list", "tuple", "ndarray", "array2d"]
 ROWS = [3, 1, 2]
 FILLS = {
     "s": [
@@ -502,6 +502,15 @@ def containerise(p, cols):
         return [list(x) for x in cols]
     if c == "tuple":
         return tuple(tuple(x) for x in cols)
+    if c == "array2d":
+        # the whole table as ONE 2-D array of shape (n_columns, n_rows) where the cells allow it
+        # (seed C16i: truthiness of the data container)
+        try:
+            a2 = np.asarray([list(x) for x in cols])
+            if a2.ndim == 2 and a2.dtype != object and a2.dtype.kind in "iufcb" and all(t != "s" for t in p["types"]) and len(set(p["types"])) == 1:
+                return a2
+        except (OverflowError, ValueError):
+            pass
     out = []
     for t, x in zip(p["types"], cols):
         if t == "s":
